@@ -62,6 +62,7 @@ def run(ctx):
                 try:
                     with numpy.errstate(all="ignore"):
                         obj = cls_(calc, (strains[:, a], strains[:, b]))
+                        obj._oracle_e = (strains[:, a].copy(), strains[:, b].copy())      # what was handed over, whatever the object keeps
                         val = obj.value_isothermal
                 except Exception as exc:
                     if classify_exception(exc) == "code":
